@@ -582,3 +582,10 @@ def run(ck):
                          ' [the notify signal of an inherited property is then searched from the derived class, and a same-named signal there is connected instead]')
     c17.run(s17)
     ck.floor('R2.7', s17.count, 2, 'shared C17 R17.11 obligations')
+
+    # the bindings that run are the ones in the header on disk: on every successful path the header is written or compared equal (C15 R15.4)
+    import rules.c15 as c15
+    s15 = _core17.Shared(ck, 'R2.6', lambda r, k: (r == 'R15.4' and k.endswith('|skipped-only-if-same-bytes')) or (r == 'R15.5' and (k in ('header-path-gets-header', 'both-outputs-written') or k.startswith('buffer-starts-empty|'))), 'C15:',
+                         ' [a header left over from an earlier run connects the bindings of the old document]')
+    c15.run(s15)
+    ck.floor('R2.6', s15.count, 5, 'shared C15 R15.4 / R15.5 obligations on the header write')
